@@ -109,6 +109,34 @@ pub const REQUEST_FORMS: [Form; 17] = [
     Form::QueryRate,
 ];
 
+/// Requests a conversation starts with (weighted towards the ones about addresses, EIDs and routes).
+pub const CONVERSATION_FORMS: [Form; 24] = [
+    Form::SetEid,
+    Form::SetEid,
+    Form::GetEid,
+    Form::GetEid,
+    Form::GetUuid,
+    Form::GetVer,
+    Form::GetTypes,
+    Form::GetVendor,
+    Form::ResolveEid,
+    Form::ResolveEid,
+    Form::ResolveEid,
+    Form::AllocEids,
+    Form::AllocEids,
+    Form::RoutingUpdate,
+    Form::GetRouting,
+    Form::GetRouting,
+    Form::PrepDisc,
+    Form::EpDisc,
+    Form::DiscNotify,
+    Form::GetNetId,
+    Form::QueryHop,
+    Form::ResolveUuid,
+    Form::ResolveUuid,
+    Form::QueryRate,
+];
+
 pub const RESPONSE_FORMS: [Form; 6] =
     [Form::RSetEid, Form::RGetEid, Form::RGetUuid, Form::RGetVer, Form::RGetTypes, Form::RGetVendor];
 
@@ -531,6 +559,56 @@ pub fn run_history(ctx: &mut MCTPSMBusContext, own: u8, dest: u8, seed: u64) {
         let mut c = Call::random(form, &mut rng, false, 40);
         c.hist = 0;
         let _ = invoke_on(ctx, &c, &mut scratch, rng.chance(1, 2));
+    }
+    // conversations: the context asks a peer something (any request encoder, arguments often related
+    // to the address the judged call is about to use) and then receives the peer's Success response to
+    // exactly that command, with plausible field lengths and content again related to those addresses.
+    // A requester that "learns" from what it asked and what it was told (routes, assigned or resolved
+    // EIDs, pool allocations) carries that into the next packet it encodes.
+    let convs = if rng.chance(1, 3) { 1 + rng.below(3) } else { 0 };
+    for _ in 0..convs {
+        let related = [dest, dest & 0x7F, own, own & 0x7F, dest.wrapping_shl(1), 0x00, 0xFF];
+        let form = *rng.pick(&CONVERSATION_FORMS);
+        let mut q = Call::random(form, &mut rng, false, 24);
+        q.hist = 0;
+        let peer = if rng.chance(1, 2) { dest } else { rng.byte() & 0x7F };
+        q.dest = peer;
+        for i in 0..4 {
+            if rng.chance(1, 2) {
+                q.p[i] = *rng.pick(&related);
+            }
+        }
+        let r = invoke_on(ctx, &q, &mut scratch, false);
+        let (cmd, iid) = match r {
+            Ok(Ok(m)) if m >= 12 && m <= scratch.len() && scratch[8] == 0 => (scratch[10], scratch[9] & 0x1F),
+            _ => continue,
+        };
+        let len = match cmd {
+            0x01 => 3,
+            0x02 => 3 + rng.below(2) as usize,
+            0x03 => 16,
+            0x04 => 1 + 4 * rng.below(3) as usize,
+            0x05 => 1 + rng.below(6) as usize,
+            0x06 => 1 + [3usize, 5][rng.below(2) as usize],
+            0x07 => 2 + rng.below(3) as usize,
+            0x08 => 4,
+            0x09 => 0,
+            0x0A => 3 + rng.below(12) as usize,
+            _ => rng.below(8) as usize,
+        };
+        let mut data = rng.bytes(len);
+        for b in data.iter_mut() {
+            if rng.chance(1, 2) {
+                *b = if rng.chance(1, 2) { *rng.pick(&related) } else { rng.range(1, 0x7F) as u8 };
+            }
+        }
+        let from = if rng.chance(4, 5) { peer & 0x7F } else { rng.byte() & 0x7F };
+        let resp = ctrl_response(own & 0x7F, from, iid, cmd, 0, &data);
+        if rng.chance(1, 2) {
+            let _ = trap(|| ctx.decode_packet(&resp).is_ok());
+        } else {
+            let _ = trap(|| ctx.process_packet(&resp, &mut rb).is_ok());
+        }
     }
     for _ in 0..n {
         let src = rng.byte() & 0x7F;
